@@ -566,6 +566,15 @@ RING_SITES = {
         "if segment_ix == last_segment_ix { break; } segment_ix = next_segment_ix .map(|ix| ix as usize) "
         ".unwrap_or(last_segment_ix); }",
         "let next_segment_ix = segment.edge_next_ix;",
+        # which segment indices the two passes of compute_edges hand to new-edge / append
+        # (Props/C02EdgeRing.lean compute_edges_links_each_segment_once)
+        "for segment_ix in 0..axis.segments.len() { let segment = &axis.segments[segment_ix]; "
+        "if group == ScriptGroup::Default { if (segment.height as i32) < segment_length_threshold "
+        "|| (segment.delta as i32 > segment_width_threshold) || segment.dir == Direction::None { continue; }",
+        "if let Some(edge_ix) = best_edge_ix { axis.append_segment_to_edge(segment_ix, edge_ix); } else {",
+        "if group == ScriptGroup::Default { for segment_ix in 0..axis.segments.len() { "
+        "let segment = &axis.segments[segment_ix]; if segment.dir != Direction::None { continue; }",
+        "{ axis.append_segment_to_edge(segment_ix, edge_ix); } } } link_segments_to_edges(axis);",
         # the CJK link walk that `walkCjk` transcribes, with its entry
         "let first_ix = edge.first_ix as usize; let mut seg1 = &axis.segments[first_ix]; let mut dist2 = 0; "
         "loop { if let Some(link1) = seg1.link(&axis.segments).copied() { "
@@ -579,13 +588,19 @@ RING_SITES = {
 def check_ring_sites(read):
     """Model/EdgeRing.lean (hand-written) transcribes these code sites; they are the only writers of edge_next_ix"""
     writes = 0
+    calls = 0
     for rel in read("*"):
         src = B.strip_comments(read(rel))
+        calls += len(re.findall(r"\.\s*append_segment_to_edge\s*\(", src.split("#[cfg(test)]")[0]))
+        if rel.endswith("topo/edges.rs") and re.search(r"\.\s*dir\s*=(?!=)", src.split("#[cfg(test)]")[0]):
+            raise Unsupported(f"{rel}: a segment / edge `dir` is assigned (the two passes are told apart by segment.dir)")
         flat = " ".join(src.split())
         for text in RING_SITES.get(rel, []):
             if text not in flat:
                 raise Unsupported(f"{rel}: ring code site no longer reads `{text[:90]}…` (Model/EdgeRing.lean transcribes it)")
         writes += len(re.findall(r"edge_next_ix\s*=(?!=)", src))
+    if calls != 2:
+        raise Unsupported(f"expected exactly 2 calls of append_segment_to_edge in the autohinter, found {calls}")
     if writes != 3:
         raise Unsupported(f"expected exactly 3 assignments to edge_next_ix in the autohinter, found {writes}")
 
